@@ -108,6 +108,12 @@ pub fn run_op(line: &str) -> String {
         "enc" if toks[1] == "v3" => crate::pktops::v3_enc(&toks[2..]),
         "poll" if toks[1] == "v3" => crate::pktops::v3_poll(&unhex(toks[2]).unwrap(), crate::pktops::parse_sched(toks[3]).unwrap(), crate::pktops::parse_term(toks[4]).unwrap()),
         "cwp" if toks[1] == "v3" => crate::pktops::v3_cwp(toks[2], &unhex(toks[3]).unwrap()),
+        "dec" if toks[1] == "v5" => crate::pktops::v5_dec(&unhex(toks[2]).unwrap()),
+        "deca" if toks[1] == "v5" => crate::pktops::v5_deca(&unhex(toks[2]).unwrap(), crate::pktops::parse_term(toks[3]).unwrap(), vec![]),
+        "hdr" if toks[1] == "v5" => crate::pktops::v5_hdr(&unhex(toks[2]).unwrap()),
+        "enc" if toks[1] == "v5" => crate::pktops::v5_enc(&toks[2..]),
+        "poll" if toks[1] == "v5" => crate::pktops::v5_poll(&unhex(toks[2]).unwrap(), crate::pktops::parse_sched(toks[3]).unwrap(), crate::pktops::parse_term(toks[4]).unwrap()),
+        "cwp" if toks[1] == "v5" => crate::pktops::v5_cwp(toks[2], toks[3].parse().unwrap(), &unhex(toks[4]).unwrap()),
         other => format!("bad-op {}", other),
     }
 }
